@@ -41,34 +41,4 @@ pub fn prefixes(s: &Shape, from: usize, to: usize, skipper: bool) {
     kani::cover!(k > from, "at least one cut position explored");
 }
 
-macro_rules! c05_harness {
-    ($name:ident, $uw:expr, $shape:expr, $from:expr, $to:expr, $skipper:expr) => {
-        #[kani::proof]
-        #[kani::unwind($uw)]
-        #[kani::stub(std::fmt::format, crate::models::fmt_format_stub)]
-        #[kani::stub(core::str::from_utf8, crate::models::from_utf8_stub)]
-        #[kani::stub(dlt_core::parse::forward_to_next_storage_header, crate::models::forward_stub)]
-        fn $name() {
-            let s: Shape = $shape;
-            prefixes(&s, $from, $to, $skipper);
-        }
-    };
-}
-
-const S_NV_MIN: Shape = Shape { storage: false, htyp: H_MIN, msin: 0, ids: IDS_FULL, payload: P::NonVerbose(2) };
-const S_CTRL_ST: Shape = Shape { storage: true, htyp: H_EXT_LE, msin: M_CTRL_REQ, ids: IDS_FULL, payload: P::Control(0) };
-const S_V_BOOL_ALL: Shape = Shape { storage: false, htyp: H_ALL_BE, msin: M_LOG_INFO_V, ids: IDS_SHORT, payload: P::Verbose(&[arg(AK::Bool)]) };
-const S_V_STR: Shape = Shape { storage: false, htyp: H_EXT_LE, msin: M_LOG_INFO_V, ids: IDS_SHORT, payload: P::Verbose(&[arg_v(AK::Str, 1, 0)]) };
-const S_V_EMPTY: Shape = Shape { storage: false, htyp: H_EXT_LE, msin: M_LOG_INFO_V, ids: IDS_SHORT, payload: P::Verbose(&[]) };
-const S_NW_ST: Shape = Shape { storage: true, htyp: H_EXT_BE, msin: M_NW_CAN_V, ids: IDS_FULL, payload: P::NetTrace(&[1]) };
-
-c05_harness!(c05_nonverbose_min, 24, S_NV_MIN, 0, 10, false);
-c05_harness!(c05_control_storage_0_16, 40, S_CTRL_ST, 0, 16, true);
-c05_harness!(c05_control_storage_16_31, 40, S_CTRL_ST, 16, 31, true);
-c05_harness!(c05_verbose_bool_allfields_0_14, 40, S_V_BOOL_ALL, 0, 14, false);
-c05_harness!(c05_verbose_bool_allfields_14_31, 40, S_V_BOOL_ALL, 14, 31, false);
-c05_harness!(c05_verbose_string_0_12, 40, S_V_STR, 0, 12, false);
-c05_harness!(c05_verbose_string_12_27, 40, S_V_STR, 12, 27, false);
-c05_harness!(c05_verbose_noargs_shortids, 40, S_V_EMPTY, 0, 14, false);
-c05_harness!(c05_nettrace_storage_0_16, 48, S_NW_ST, 0, 16, true);
-c05_harness!(c05_nettrace_storage_16_37, 48, S_NW_ST, 16, 37, true);
+// harnesses: gen_c05.rs (generated: every cut position of every shape, 3 cuts per harness)
